@@ -21,6 +21,7 @@ class PathEvents:
         self.feasible = True
         self.truth = {}
         aops = {op["st"]["id"]: op for op in atomic_ops(f)}
+        self.unresolved = []    # atomic operations whose object cannot be named (pointer-to-member, opaque alias)
         self.tern = {}          # ConditionalOperator id -> arm taken on this path
         self.refalias = {}      # declaration id of a local reference bound through a ternary -> the arm bound here
         for kind, pos, val in path_positions(f, p):
@@ -41,9 +42,14 @@ class PathEvents:
                     if fld is None:
                         oe = unwrap(f, f.s(st["obj"]) if st["k"] == "CXXMemberCallExpr" else f.s(st["args"][0]))
                         arm = self.refalias.get(oe["d"].get("id")) if oe is not None and oe["k"] == "DeclRefExpr" else None
+                        if oe is not None and oe["k"] == "ConditionalOperator" and oe["id"] in self.tern:
+                            # `(prev ? prev->next : m_head).store(v)`, also as the result of an inlined link selector
+                            arm = unwrap(f, f.s(oe["then"] if self.tern[oe["id"]] else oe["else"]))
                         if arm is not None and arm["k"] == "MemberExpr" and arm["m"].get("is_field"):
                             fld = (arm["m"].get("rec"), arm["m"]["name"])
                             op = dict(op, obj=path(f, arm))
+                    if fld is None:
+                        self.unresolved.append(op)
                     objtok = self.tok_of_base(op["obj"])
                     if op["op"] == "load":
                         self.events.append(dict(k="aload", obj=op["obj"], fld=fld, pos=pos, st=st, objtok=objtok))
@@ -117,11 +123,22 @@ class PathEvents:
         return None
 
 
-def all_paths(f, objects=(), unroll=None):
+class Unresolved(Exception):
+    pass
+
+
+def all_paths(f, objects=(), unroll=None, strict=True):
+    """feasible paths of f with their events.  strict: an atomic operation on a list link / log field that cannot be
+    attributed to a member (reached through a pointer-to-member, an opaque alias) makes every protocol rule undecidable
+    for this function - raised as Unresolved, which the rule runner reports as 'analysis broken', never as a verdict"""
     out = []
     for p in paths(f, unroll=unroll):
         pe = PathEvents(f, p, objects)
         if pe.feasible:
+            if strict and pe.unresolved:
+                op = pe.unresolved[0]
+                raise Unresolved("%s: atomic %s at %s acts on an object the path interpreter cannot name (%s)"
+                                 % (f.label, op["name"], f.loc(op["st"]), op.get("obj")))
             out.append(pe)
     return out
 
@@ -150,6 +167,28 @@ def insertion_body(f):
                 if path(f, f.s(a)) == var and i < len(g.params):
                     return g, "p:" + g.params[i]["name"], mk, f.pos_of(st)
     return f, var, mk, None
+
+
+def node_names(f, var):
+    """access paths that denote the freshly allocated node in f: the owning local itself and every never-reassigned
+    pointer copy of it made for an inlined helper (`link_front(newNode.release())`, `link(newNode.get())`)"""
+    from .engine import _only_rvalue_uses
+    names = {var}
+    changed = True
+    while changed:
+        changed = False
+        for st in f.stmts.values():
+            if st["k"] != "DeclStmt":
+                continue
+            for d in st["decls"]:
+                nm = "l:" + d["name"]
+                if nm in names or not d.get("init") or d.get("ref") or not d.get("type", "").rstrip().endswith("*"):
+                    continue
+                if path(f, f.s(d["init"])) in names and \
+                        _only_rvalue_uses(f, lambda x, i=d["id"]: x["k"] == "DeclRefExpr" and x["d"].get("id") == i, True):
+                    names.add(nm)
+                    changed = True
+    return names
 
 
 MUTATOR_NAMES = ("push_front", "emplace_front", "push_back", "emplace_back", "erase")
